@@ -91,8 +91,8 @@ impl OutputFormat for IceDraw {
                     return Err(SavingError::Only8BitCharactersSupported.into());
                 }
 
-                // fake repeat
-                if ch == 1 && attr == 0 && rle_count == 1 {
+                // fake repeat (the compressed path has already written the escape for character 1)
+                if ch == 1 && attr == 0 && rle_count == 1 && !options.compress {
                     result.extend([1, 0, 1, 0]);
                 }
                 result.push(ch as u8);
